@@ -1,6 +1,6 @@
 """Property -> rules table (DESIGN §4.0)."""
 
-RULE_MODULES = ["r_ack", "r_quota", "r_key"]
+RULE_MODULES = ["r_ack", "r_quota", "r_key", "r_exits", "r_flow"]
 
 TRUST = [
     "rustc nightly builds mir_built faithfully from the working tree (same front end as the real build)",
@@ -44,6 +44,54 @@ PROPS = {
         "explanation": "Decision table of validate_packet_size by path enumeration (accept iff absent or len <= max), dominance of the size check over every effect in each outbound arm, "
                        "effect-freedom of the refusing edge, identity of checked and written slice, single source of the limit (CONNACK).",
         "not_decided": "that L is the encoder's true output length (C01)",
+        "assumptions": TRUST,
+    },
+    "C06": {
+        "rules": ["HANDSHAKE-DUP", "HANDSHAKE-QOS2", "THRESH", "MSGKIND"],
+        "explanation": "Dominance rules on MIR: the DUP bit is set on the stored copy only (after the completed first write, before the push to the retransmission queue), the PUBREL identifier derives from the received PUBREC, "
+                       "the PUBREL enqueue is dominated by the Continue edge of the `?` over the PUBREC reason check, QoS 0 completes after its write, reason thresholds are exactly 0x80 with Err on the failing side, one PUBLISH enqueue per QoS branch.",
+        "not_decided": "interleavings with other operations and delayed polling between the two QoS 2 phases (schedules); content equality of topic/payload (C01)",
+        "assumptions": TRUST,
+    },
+    "C07": {
+        "rules": ["SUBREG", "DISPATCH", "ADAPTER", "FIFO"],
+        "explanation": "Registration of (subscription identifier, stream) on every path that writes the SUBSCRIBE; delivery receiver = keyed lookup by the received subscription identifier; payload moved whole (no field write, no &mut use); "
+                       "subscriptions removed only on the failed-delivery edge; who-may-mutate table; decision table of SubscribeStream::poll_next by path enumeration.",
+        "not_decided": "order / exactly-once over histories with lagging or dropped streams (executions); a PUBLISH carrying several Subscription Identifiers (known finding, codec keeps one)",
+        "assumptions": TRUST,
+    },
+    "C11": {
+        "rules": ["IDALLOC", "SUBREG"],
+        "explanation": "Every identifier handed to a request builder derives from one atomic read-modify-write on the shared counter (no load/store pair); zero-ness dataflow proves the value reaching NonZero::try_from(..).unwrap() non-zero; "
+                       "counter created once with value 1; identifier setters are not public; one fetch_add on sub_id per subscribe().",
+        "not_decided": "uniqueness among outstanding operations over histories (implied by a sequential wrapping counter under the stated proviso); thread schedules beyond atomicity of the RMW",
+        "assumptions": TRUST,
+    },
+    "C13": {
+        "rules": ["EXITS", "EXITS-EXPLICIT", "EXITS-OK", "FIRST-RESPONSE", "THRESH", "CONV"],
+        "explanation": "Complete table of the exits of Context::run (recursively through handle_packet / handle_message / ack / retransmit), each classified by the residual error type of its `?` and what produced it; explicit returns; "
+                       "required Ok(()) exits and what they are control dependent on; first-response table of connect()/authorize(); reason thresholds; From<..> for MqttError variant table.",
+        "not_decided": "'at every reachable session state': the exits do not consult session state, which is stated rather than explored",
+        "assumptions": TRUST,
+    },
+    "C14": {
+        "rules": ["OWN", "CONV", "ADAPTER", "RESUME-ORDER"],
+        "explanation": "Ownership discipline: no leak primitive in the crate, senders never cloned, Session collections own their senders directly, Canceled/TrySendError map to ContextExited, every handle operation propagates a failed enqueue and awaits only its own oneshot receiver, "
+                       "the stream adapter maps inner end-of-stream to end-of-stream, reset_session clears every collection.",
+        "not_decided": "liveness itself (that the wake-up happens) is a property of the channel library (trusted base)",
+        "assumptions": TRUST,
+    },
+    "C15": {
+        "rules": ["EXITS", "QUOTA-INC", "DISPATCH"],
+        "explanation": "No exit of run() is caused by a failed completion or delivery (EXITS classifies every `?`); the quota release does not depend on the lookup or on the completion having been delivered; a failed delivery only removes that subscription.",
+        "not_decided": "'other operations complete with their own acknowledgements' under all interleavings (follows from KEY/LOOKUP of C05 once the context keeps running)",
+        "assumptions": TRUST,
+    },
+    "C17": {
+        "rules": ["RESUME-PAIR", "RESUME-EXPIRY", "RESUME-ORDER", "HANDSHAKE-DUP"],
+        "explanation": "Pairing of every class pushed to the retransmission queue with a keyed removal in the arm of its acknowledgement; normalised truth table of session_expired; dominance/ordering of is_reconnect, session_expired, reset_session, retransmit and the select loop in run(); "
+                       "retransmit iterates front to back and awaits each unchanged write; stored copy carries DUP.",
+        "not_decided": "behaviour over disconnection points x histories; wall-clock arithmetic",
         "assumptions": TRUST,
     },
 }
